@@ -15,7 +15,7 @@ reset_wt() { git -C "$WT" checkout -q --detach "$(git -C /repo rev-parse HEAD)" 
 reset_wt
 echo "repo_head=$(git -C /repo rev-parse --short HEAD)" >> "$OUT"
 # 1. demo passes on the unchanged tree
-DEMO_CMD="$(cat "$SD/demo_cmd.txt" 2>/dev/null | head -1)"
+DEMO_CMD="$(grep -v '^#' "$SD/demo_cmd.txt" 2>/dev/null | grep -m1 cargo | sed "s|/tmp/seed/C[0-9][0-9]|$WT|g")"
 if [ -f "$SD/demo.patch" ] && [ -n "$DEMO_CMD" ]; then
   git -C "$WT" apply "$SD/demo.patch" || { echo "demo_applies=no" >> "$OUT"; }
   ( cd "$WT" && eval "$DEMO_CMD" ) > /tmp/ev_$SLOT/demo_clean.log 2>&1; echo "demo_on_clean_rc=$?" >> "$OUT"
